@@ -9,7 +9,8 @@ from harness import core, gen
 
 RULE = ("paired executions of the same final get_estimates call (and national summary) compared bit for bit: twice in one process on one client; on a "
         "fresh client; after 1-3 earlier calls with different arguments and a different estimator (history); with the global numpy / python generators "
-        "re-seeded differently before every call; twice with the very same baseline DataFrame object; with the baseline read from the local file that an "
+        "re-seeded differently before every call; twice with the very same baseline DataFrame object; with the very same live-results DataFrame object that an earlier "
+        "call for the other kind of estimand was given; with the baseline read from the local file that an "
         "earlier call with save_output=['data'] wrote; the national summary after three earlier summaries on the same client; in subprocesses under PYTHONHASHSEED in {0, 1, 4242}; all three estimators, with features and fixed "
         "effects. distinct = (estimator, kind of pairing); non-trivial = both executions completed")
 
@@ -67,6 +68,7 @@ def worker(job):
         "global-rng-perturbed-2": {"cases": [final, final], "nat_sum": nat, "perturb_global_rng": True, "rng_salt": 99},
     }
     scenarios["twice-one-baseline-frame"] = {"cases": [final, final], "nat_sum": nat, "shared_client": False, "shared_base_frame": True}
+    scenarios["one-live-frame-after-other-estimand"] = {"cases": [final], "nat_sum": nat, "shared_client": False, "shared_feed_frame": True}
     if not final["params"].get("save_output"):
         scenarios["baseline-read-from-local-cache"] = {"cases": [final], "nat_sum": nat, "local_cache": True}
     if nat:
@@ -92,7 +94,7 @@ def worker(job):
     res["ref"] = ref
     out = {"job": list(job), "office": final["office"], "pairs": [], "ref_ok": ref.get("ok"), "ref_exc": ref.get("exc")}
     runs = [("hashseed-1", scenarios["plain"], "1"), ("hashseed-4242", scenarios["plain"], "4242")]
-    for name in ("twice-same-client", "fresh-client-after-history", "same-client-after-history", "global-rng-perturbed", "global-rng-perturbed-2", "twice-one-baseline-frame",
+    for name in ("twice-same-client", "fresh-client-after-history", "same-client-after-history", "global-rng-perturbed", "global-rng-perturbed-2", "twice-one-baseline-frame", "one-live-frame-after-other-estimand",
                  "baseline-read-from-local-cache", "summary-after-summaries"):
         if name not in scenarios:
             continue
